@@ -227,6 +227,55 @@ def check_framewise(S, ref, est, window, hop, images=False, cp=False):
     return None
 
 
+def check_cp_consistency(S, ref, est, images=False):
+    """when the optimal permutation is the identity, compute_permutation=False returns exactly the metrics of compute_permutation=True"""
+    import numpy as np
+    fn = S.bss_eval_images if images else S.bss_eval_sources
+    a = _quiet(fn, ref, est, True)
+    if [int(x) for x in a[-1]] != list(range(est.shape[0])):
+        return None
+    b = _quiet(fn, ref, est, False)
+    for m, (x, y) in enumerate(zip(a[:-1], b[:-1])):
+        if not _close_db(x, y, 1e-9):
+            return finding('separation.' + fn.__name__, 'compute_permutation=False equals compute_permutation=True when the best permutation is the identity',
+                           {'shape': list(np.shape(ref)), 'metric_index': m}, [np.asarray(x).tolist(), np.asarray(y).tolist()], 'differs')
+    return None
+
+
+def targeted(S=None):
+    """a fixed battery: every reordering of three sources (3-cycles are the permutations that differ from their inverse), the
+    compute_permutation=False paths, and the fewer-than-two-windows fallback of the framewise functions with swapped estimates"""
+    import numpy as np
+    if S is None:
+        from mir_eval import separation as S
+    out = []
+
+    def add(f):
+        if f is not None:
+            out.append(f)
+    rs = np.random.RandomState(7)
+    ref3 = rs.randn(3, 600)
+    for sigma in ([1, 2, 0], [2, 0, 1], [0, 2, 1]):
+        add(check_perfect(S, ref3, list(sigma)))
+    est = ref3[[1, 2, 0]] + 0.3 * rs.randn(3, 600)
+    add(check_permutation(S, ref3, est, [1, 2, 0]))
+    ref2 = rs.randn(2, 700)
+    est2 = ref2 + 0.4 * rs.randn(2, 700) + 0.2 * ref2[::-1]
+    add(check_cp_consistency(S, ref2, est2))
+    add(check_cp_consistency(S, ref2[:, :, None], est2[:, :, None], images=True))
+    r2c = rs.randn(2, 600, 2)
+    add(check_cp_consistency(S, r2c, r2c + 0.3 * rs.randn(2, 600, 2), images=True))
+    # fewer than 2 windows, estimates swapped, compute_permutation False (the framewise default) and True
+    r = rs.randn(2, 60)
+    e = r[::-1] + 0.1 * rs.randn(2, 60)
+    for cp in (False, True):
+        add(check_framewise(S, r, e, 60, 30, False, cp))
+        add(check_framewise(S, r, e, 60, 30, True, cp))
+        add(check_framewise(S, r, e, 20, 20, False, cp))
+        add(check_framewise(S, r, e, 20, 20, True, cp))
+    return out
+
+
 def check_empty_arity(S):
     """Documented arity (4 for sources, 5 for images) on empty input, all four public functions."""
     import numpy as np
